@@ -388,9 +388,13 @@ func c08Main(args []string) int {
 		if common.Tier() == "thorough" {
 			shards *= 2
 		}
+		sdn := sd + (p - pre)
+		if strings.HasPrefix(n, "S5") && common.Tier() != "thorough" {
+			sdn = 1 // the two-node sync scenario has ~150 choice points per execution: one schedule deviation in the quick tier
+		}
 		for _, param := range sc.Params {
 			for s := 0; s < shards; s++ {
-				jobs = append(jobs, sched.Job{Scenario: n, Param: param, Preempt: p, Data: 1, Sched: sd + (p - pre), ShardI: s, ShardN: shards, BudgetS: budget})
+				jobs = append(jobs, sched.Job{Scenario: n, Param: param, Preempt: p, Data: 1, Sched: sdn, ShardI: s, ShardN: shards, BudgetS: budget})
 			}
 		}
 	}
@@ -398,7 +402,7 @@ func c08Main(args []string) int {
 	if common.Tier() == "thorough" {
 		totalBudget = 1500
 	}
-	sched.SpreadBudget(jobs, totalBudget, *procs, 15)
+	sched.SpreadBudget(jobs, totalBudget, *procs, 35)
 	tot := sched.RunAll(rep, jobs, []string{"C08", "worker"}, *procs)
 	c08Evidence(rep, tot, pre, sd)
 	if tot.Diverged > 0 {
